@@ -16,8 +16,8 @@ import vtargets
 ID = 'C19'
 LEVEL = 'exploration'
 RULE = ('case = operation list (up to 30 steps; thorough: bursts of up to 300 creations) over {create a worker of one of the six classes that finishes at once / '
-        'is held until released / is not run, release one, terminate one, restart a persistent one, call active_children() from the main thread or from 2-3 '
-        'threads at once, run a block under autoclose_active_children() that creates held workers}. Model = the set of workers created in this process whose '
+        'is held until released / is not run, release one, terminate one, restart a persistent one, call active_children() - spelled Worker.active_children(), through a subclass or through an instance - from the main thread or from 2-3 '
+        'threads at once, drop the caller\'s reference to a running process / remote worker, run a block under autoclose_active_children() that creates held workers}. Model = the set of workers created in this process whose '
         'is_alive() is True. Oracle: every active_children() call yields exactly the model set, each worker once; after workers have finished and the harness '
         'dropped them, the registry retains none (weak references die after a further active_children() call and gc); leaving an autoclose block leaves every '
         'registered worker dead (process/remote children gone from the process table). Non-trivial = >=1 worker finished before a check; distinct = distinct case.')
@@ -25,7 +25,7 @@ ASSUMPTIONS = ['held workers use a cooperative target, so thread workers can be 
 SHRINK = 'greedy'
 SHRINK_RUNS = 25
 TIME_BUDGET = {'quick': 170, 'thorough': 1700}
-REQUIRED = {'quick': {'check_after_death': 150, 'concurrent_check': 60, 'autoclose': 40, 'restart': 30, 'retention_checked': 100, 'create_during_active_children': 40},
+REQUIRED = {'quick': {'check_after_death': 150, 'concurrent_check': 60, 'autoclose': 40, 'restart': 30, 'retention_checked': 100, 'create_during_active_children': 40, 'check_via_subclass': 60, 'check_via_instance': 10, 'reference_dropped_while_running': 25},
             'thorough': {'check_after_death': 1500, 'concurrent_check': 600, 'autoclose': 400}}
 KINDS = ['thread', 'process', 'remote', 'p_thread', 'p_process', 'p_remote']
 
@@ -46,6 +46,10 @@ def strategy(tier):
         st.tuples(st.just('release'), st.integers(0, 20)), st.tuples(st.just('terminate'), st.integers(0, 20)),
         st.tuples(st.just('restart'), st.integers(0, 20)),
         st.tuples(st.just('check'), st.sampled_from([0, 0, 2, 3])), st.tuples(st.just('check'), st.sampled_from([0, 2])),
+        # active_children() is inherited: spelled through a subclass or an instance it has to enumerate the same registry
+        st.tuples(st.just('check'), st.sampled_from([0, 0, 2]), st.sampled_from(['thread', 'p_thread', 'process', 'p_process', 'p_remote', 'instance'])),
+        # the caller drops its reference to a running process / remote worker (fire and forget): it is still a live worker
+        st.tuples(st.just('create_unreferenced'), st.sampled_from(['process', 'process', 'p_process', 'remote', 'p_remote'])),
         st.tuples(st.just('check_during_create')),
         st.tuples(st.just('autoclose'), st.lists(st.sampled_from(['thread', 'process', 'p_thread', 'p_process', 'p_remote']), min_size=1, max_size=3)),
         st.tuples(st.just('burst'), st.sampled_from(['thread', 'p_thread']), st.integers(5, 40 if tier == 'quick' else 300)),
@@ -106,7 +110,9 @@ def run_case(case, ctx):
         except BaseException:
             pass
 
-    def do_check(nthreads, where):
+    orphans = []         # dicts: pid, kind, path - live workers the harness no longer references
+
+    def do_check(nthreads, where, via=None):
         nonlocal finished_before_check
         # bring quick workers to a definite state first
         for rec in workers:
@@ -115,9 +121,22 @@ def run_case(case, ctx):
                 rec['settled'] = True
         results = []
 
+        fn = Worker.active_children
+        if via == 'instance':
+            inst = next((rec['w'] for rec in workers if rec['w'] is not None), None)
+            if inst is not None:
+                fn = inst.active_children
+                out.label('check_via_instance')
+        elif via:
+            fn = IC.KINDS[via].active_children
+            out.label('check_via_subclass')
+        pids_seen = []
+
         def one():
             try:
-                results.append([id(c) for c in Worker.active_children()])
+                got = [(id(c), getattr(c, 'pid', None)) for c in fn()]
+                pids_seen.append({i: p for i, p in got})
+                results.append([i for i, _ in got])
             except BaseException as e:
                 results.append(e)
         if nthreads:
@@ -144,9 +163,18 @@ def run_case(case, ctx):
             if len(r) != len(set(r)):
                 out.viol('worker_yielded_twice', where, f'{len(r) - len(set(r))} duplicates')
             got = set(r)
+            pidmap = {}
+            for m_ in pids_seen:
+                pidmap.update(m_)
+            orphan_pids = {o['pid'] for o in orphans}
             extra_dead = [i for i in got if i in known and i not in model]
             missing = [i for i in model if i not in got]
-            foreign = [i for i in got if i not in known and i not in model]
+            foreign = [i for i in got if i not in known and i not in model and pidmap.get(i) not in orphan_pids]
+            for o in orphans:
+                if pid_alive(o['pid']) and o['pid'] not in {pidmap.get(i) for i in got}:
+                    time.sleep(0.05)
+                    if pid_alive(o['pid']) and not os.path.exists(o['path']):
+                        out.viol('live_worker_missing', where + ':' + o['kind'] + ':unreferenced_by_caller', f'worker with child pid {o["pid"]} is running, the caller dropped its reference, active_children() does not yield it')
             if extra_dead:
                 out.viol('dead_worker_yielded', where, f'{len(extra_dead)} dead worker(s) yielded by active_children() ({len(got)} yielded, {len(model)} alive)')
             if missing:
@@ -202,8 +230,19 @@ def run_case(case, ctx):
                     log.append([what + '_failed', rec['kind'], type(e).__name__])
                 log.append([what, rec['kind']])
             elif what == 'check':
-                do_check(op[1], 'check')
-                log.append(['check', op[1]])
+                do_check(op[1], 'check' + (':via_' + ('instance' if op[2] == 'instance' else 'subclass') if len(op) > 2 else ''), op[2] if len(op) > 2 else None)
+                log.append(['check', op[1]] + op[2:])
+            elif what == 'create_unreferenced':
+                kind = op[1]
+                path = os.path.join(ctx.scratch, IC.fresh_name(ctx, 'c19') + '.rel')
+                try:
+                    orphans.append({'pid': _mk(kind, 'hold', ctx, path).pid, 'kind': kind, 'path': path})      # the worker object itself is not kept
+                except BaseException as e:
+                    log.append(['create_failed', kind, type(e).__name__])
+                    continue
+                gc.collect()
+                out.label('reference_dropped_while_running')
+                log.append(['create_unreferenced', kind])
             elif what == 'check_during_create':
                 # another thread creates a worker exactly while active_children() evaluates is_alive() of a registered worker
                 import vworkers
@@ -273,6 +312,11 @@ def run_case(case, ctx):
                             if pid_alive(pid):
                                 out.viol('child_process_alive_after_autoclose', 'autoclose:' + rec['kind'], f'pid {pid}')
                     rec['settled'] = True
+                for o in orphans:
+                    if pid_alive(o['pid']):
+                        time.sleep(0.5)
+                        if pid_alive(o['pid']) and not os.path.exists(o['path']):
+                            out.viol('child_process_alive_after_autoclose', 'autoclose:' + o['kind'] + ':unreferenced_by_caller', f'pid {o["pid"]}')
                 log.append(['autoclose', op[1]])
         # final check + retention
         do_check(0, 'final_check')
@@ -310,6 +354,26 @@ def run_case(case, ctx):
         out.nontrivial = finished_before_check
         out.obs = {'ops': log[:12], 'created': len(workers), 'dropped': dropped}
     finally:
+        for o in orphans:
+            try:
+                open(o['path'], 'w').close()
+            except OSError:
+                pass
+        if orphans:
+            time.sleep(0.1)
+            for c in list(Worker.active_children()):
+                try:
+                    if getattr(c, 'pid', None) in {o['pid'] for o in orphans}:
+                        bounded(c.terminate, 10, 1)
+                except BaseException:
+                    pass
+            c = None
+            for o in orphans:
+                if pid_alive(o['pid']) and o['pid'] != os.getpid():
+                    try:
+                        os.kill(o['pid'], signal.SIGKILL)
+                    except OSError:
+                        pass
         for rec in workers:
             if rec.get('path'):
                 try:
